@@ -10,6 +10,9 @@ TEXT = {
  "C04": ("Exact time-outs: for symbolic tick times around the timeout the solver shows no response of read/create/complete reports pending at or after the deadline, every stored time-out happens at a tick >= timeout with empty value and completed_on = timeout, and a completion at or after the deadline never installs the caller's state/value; the sweep only touches pending overdue rows. The clock is a symbolic monotone sequence, so the boundary tick (clock == timeout) is covered, which the 1-second-tick test never hits.", "4/C04"),
  "C05": ("The real four-command completion transaction is executed on both backends' handlers over an arbitrary database: every registration of the promise becomes exactly one task with copied fields and is deleted, nothing else changes; the registration coroutines are checked under interference for 'acknowledged => reported completed or registration stored'. Invariant I3 (no registration outlives its promise) is re-proved for every commit of every promise coroutine.", "4/C05"),
  "C07": ("ClaimTask is checked against the statement's table for every (state, counter, request) combination under interference and faults, and the lexicographic monotonicity of (counter, state rank) (G2) plus I4 is proved for every transaction it commits; the task statements (update/heartbeat/complete-by-root) are checked as conditional writes on both backends.", "4/C07"),
+ "C08": ("Routed creation (promise + invocation task in one transaction iff the router matched, with the router's receiver), create-with-task (refused without trace unless routed; otherwise promise and claimed task in one step), the completion transaction (all outstanding tasks of the root completed in the same step) and one dispatch cycle (only Init tasks with the read counter, one per root, none with an enqueued/claimed sibling; Enqueued only after a successful hand-off, failed hand-offs retried, notifications finished after the first attempt; hrefs name id and counter) are checked against the statement for arbitrary databases, router and sender outcomes.", "4/C08"),
+ "C11": ("Convergence is decided as ranking lemmas (see explanation in the evidence): progress of min(batch, overdue) per fault-free instance for each of the five sweeps, termination of every path of every background coroutine under injected failures, and exactness of the sweeps' selects on both backends.", "4/C11"),
+ "C14": ("Search statements of both backends are checked against the specification of a page for arbitrary tables, patterns, state masks, tags, limits and cursors; the coroutine's cursor logic (present iff page full, same query, SortId = last row) and the lazily timed-out rows are checked under interference; a two-page induction step shows no row is skipped or repeated when a cursor is followed while other requests interleave.", "4/C14"),
  "C09": ("The four lock coroutines run on an arbitrary lock table under interference and faults: acquire is refused iff another execution holds the resource (whatever its expiry) and otherwise sets owner/ttl/expiry = t + ttl; release removes exactly the caller's own lock; heartbeat extends exactly the rows of that process to t + ttl and never creates or transfers a lock; the sweep deletes exactly rows with expires_at <= t. Every lock row of another execution is shown unchanged by each transaction.", "4/C09"),
  "C10": ("One-step lemma of the firing sweep on an arbitrary schedule table with the cron library as an uninterpreted next(t,cron) > t: a schedule row changes only in a transaction that also contains the insert of that occurrence's promise (id = expand(template, id, occurrence), timeout = occurrence + configured timeout, configured param/tags + marker tags), only if next_run_time <= sweep time, and moves (last,next) := (next, next(next)); create computes next(created_on) and is idempotent by key; delete removes exactly the row. Iterating the lemma gives none skipped / none twice / catch-up one by one.", "4/C10"),
  "C16": ("Every write command kind of both store backends (16 kinds x 2) is executed symbolically from the real handler + real SQL text on an arbitrary invariant-satisfying database and compared with a reference conditional write: guard, written values, untouched rows, rows-affected, sort-id allocation. A one-token change of a guard, argument order or SET list flips an unsat into a model.", "4/C16"),
@@ -20,6 +23,9 @@ NOTE = {
  "C04": "Trusted as C01 plus: tick time = time at which a coroutine's transactions are built, wall clock monotone. One known finding (create with an already expired timeout answers PENDING).",
  "C05": "Trusted as C01. Three known findings (D1 registration racing completion; losing completion finishes notification tasks; see known_findings.txt).",
  "C07": "Trusted as C01; only ClaimTask at coroutine level so far, the other task coroutines are covered at statement level.",
+ "C08": "Trusted as C01; Sender/Router completions arbitrary. One known finding (router error stores the promise without its task).",
+ "C11": "Trusted as C01; sequential (fault-free, interference-free) runs for the progress lemmas by definition of the lemma. One known finding (id collision blocks the time-out of a promise for ever).",
+ "C14": "Trusted as C01 plus LIKE/tag-matching contracts; page sizes 1..3, 2-3 rows.",
  "C09": "Trusted as C01; bounds: 2 lock rows (3 thorough), ttl and clock < 2^62.",
  "C10": "Trusted as C01 plus the cron and template stubs. Two genuine defects found here (template.Must panic on a client template; nil dereference when a scheduled promise is routed) are reported under C13.",
  "C16": "Trusted: SQL statement model, json round-trip stub; bounds as C01 (3 promises, 3 callbacks, 2 schedules, 2 locks, 4 tasks). Read commands, batches and failure atomicity are not yet registered.",
